@@ -94,8 +94,9 @@ def files_of(genres):
     return out
 
 
-CAUSES = [("leftover", "tokens-lost/unconsumed-tail"), ("lexErrors", "lexical-junk-dropped"), ("objectDocs", "doc-lost/object-field"),
-          ("mixedLists", "keys-reordered/mixed-list"), ("multilineDocs", "doc-reindented/multiline"),
+# causes the formatter model can name for a loss (each is a DESIGN §9 finding); unconsumed input, lexical junk and
+# object-field docs used to be causes too and were repaired by fix: commits — a loss of that kind is now unexplained
+CAUSES = [("mixedLists", "keys-reordered/mixed-list"), ("multilineDocs", "doc-reindented/multiline"),
           ("lostNeverRead", "comment-lost/gap-never-read"), ("lostOtherLine", "comment-lost/right-gap-other-line")]
 
 
